@@ -385,4 +385,10 @@ def rule_f(ctx: Ctx) -> None:
     constraint_first(ctx, 'C16.f')
 
 
-RULES = [rule_a, rule_b, rule_c, rule_d, rule_e, rule_f]
+def rule_g(ctx: Ctx) -> None:
+    """union()/intersection() update the constraint sets in place: a wildcard they are applied to must own its sets (C03.g body)."""
+    from .c03 import rule_g as copy_ownership
+    copy_ownership(ctx, 'C16.g')
+
+
+RULES = [rule_a, rule_b, rule_c, rule_d, rule_e, rule_f, rule_g]
